@@ -517,4 +517,45 @@ theorem um_pair {st : State} {out : List Out} {s : State} {h : Nat} {a : Addr} {
     (e : (st, out) = um s h a new) : st = (um s h a new).1 ∧ out = (um s h a new).2 := by
   rw [← e]; exact ⟨rfl, rfl⟩
 
+/-! ## Messages emitted along a history -/
+
+/-- The messages of one transaction of a history: those of the handler when it succeeds, none when the
+transaction fails (and is rolled back). -/
+def stepOut (w : World) (blk : Block) (op : Op) : List Out :=
+  match tx w blk op with
+  | .ok (_, out) => out
+  | .error _ => []
+
+/-- All messages emitted along a history, in order. -/
+def outs (w : World) : List (Block × Op) → List Out
+  | [] => []
+  | o :: rest => stepOut w o.1 o.2 ++ outs (step w o.1 o.2) rest
+
+@[simp] theorem outs_nil (w : World) : outs w [] = [] := rfl
+@[simp] theorem outs_cons (w : World) (o : Block × Op) (ops : List (Block × Op)) :
+    outs w (o :: ops) = stepOut w o.1 o.2 ++ outs (step w o.1 o.2) ops := rfl
+
+theorem outs_append (w : World) (a b : List (Block × Op)) :
+    outs w (a ++ b) = outs w a ++ outs (run w a) b := by
+  induction a generalizing w with
+  | nil => simp
+  | cons o rest ih => simp [ih, List.append_assoc]
+
+theorem stepOut_ok {w w' : World} {blk : Block} {op : Op} {out : List Out} (h : tx w blk op = .ok (w', out)) :
+    stepOut w blk op = out := by
+  simp [stepOut, h]
+
+theorem stepOut_error {w : World} {blk : Block} {op : Op} {e : String} (h : tx w blk op = .error e) :
+    stepOut w blk op = [] := by
+  simp [stepOut, h]
+
+/-- A transaction either succeeds (state and messages are those of `tx`) or is rolled back silently. -/
+theorem step_cases (w : World) (blk : Block) (op : Op) :
+    (∃ w' out, tx w blk op = .ok (w', out) ∧ step w blk op = w' ∧ stepOut w blk op = out ∧
+        (tx w blk op).isOk = true) ∨
+    (step w blk op = w ∧ stepOut w blk op = [] ∧ (tx w blk op).isOk = false) := by
+  cases h : tx w blk op with
+  | ok r => obtain ⟨w', out⟩ := r; exact Or.inl ⟨w', out, rfl, by simp [step, h], by simp [stepOut, h], rfl⟩
+  | error e => exact Or.inr ⟨by simp [step, h], by simp [stepOut, h], rfl⟩
+
 end CwPlus.Cw4Stake
